@@ -53,8 +53,14 @@ def out_fields(v):
     """Ok/Err(DecoderOutput{codeword, iterations}) -> (tag, codeword, iterations)"""
     if isinstance(v, tuple) and v and v[0] == "ctor" and v[1] in ("Ok", "Err") and len(v[2]) == 1:
         s = v[2][0]
+        if isinstance(s, tuple) and len(s) == 2 and s[0] == "P":
+            s = s[1]
         if isinstance(s, tuple) and s[0] == "struct" and s[1] == "DecoderOutput":
-            return v[1], s[2].get("codeword"), s[2].get("iterations")
+            f = s[2]
+            if not isinstance(f, dict):
+                # the key form stored inside match arms: (("field", value-key), ..)
+                f = {k: (x[1] if isinstance(x, tuple) and len(x) == 2 and x[0] == "P" else x) for k, x in f}
+            return v[1], f.get("codeword"), f.get("iterations")
     return None
 
 
@@ -90,7 +96,7 @@ def run(ck, F, tier):
         OUT = var(outbuf)
         checks = [s for s in calls if s["detail"] == "decoder::check_llrs"]
         hds = [s for s in calls if s["detail"] == "decoder::hard_decisions"]
-        ck.floor("R1", "%s: check_llrs / hard_decisions call sites" % sched, len(checks) + len(hds), 5)
+        ck.floor("R1", "%s: check_llrs / hard_decisions call sites" % sched, len(checks) + len(hds), 4)
 
         def guard_check(guards):
             """the check_llrs(..) whose *true* outcome is the innermost guard"""
@@ -101,9 +107,24 @@ def run(ck, F, tier):
             return None, None
 
         # --- exits ---------------------------------------------------------------------
-        exits = [(e.args[0], e.guards, e.loops, e.site) for e in rets] + [(ret, [g for g in t.guards], [], b.span)]
+        exits = [(e.args[0], e.guards, e.loops, e.site, None) for e in rets]
+        # the value after the loop; `match (1..=max).find(|_| step-and-test) { Some(i) => Ok(..i..), None => Err(..) }` is the same
+        # loop written as a search: its Some arm is the exit taken in the iteration where the predicate first held
+        fa = single_atom(ret) if isinstance(ret, Poly) else None
+        srch = None
+        if fa and atom_fn(fa) == "match":
+            srch = getattr(t, "searches", {}).get(repr(vkey(atom_args(fa)[0])))
+        if srch is not None and srch["kind"] == "find" and srch["loop"][0] == "range":
+            unp = lambda k: k[1] if isinstance(k, tuple) and len(k) == 2 and k[0] == "P" else k
+            for key_, val_ in atom_args(fa)[1]:
+                if key_.startswith("('Some'"):
+                    exits.append((unp(val_), list(t.guards) + [(srch["pred"], True)], [srch["loop"]], b.span, srch))
+                else:
+                    exits.append((unp(val_), list(t.guards), [], b.span, None))
+        else:
+            exits.append((ret, [g for g in t.guards], [], b.span, None))
         seen_tags = []
-        for val, guards, loops, site in exits:
+        for val, guards, loops, site, from_search in exits:
             of = out_fields(val)
             if of is None:
                 ck.fail("R1", "%s:exit-shape" % sched, site, "exit value is not Ok/Err(DecoderOutput{..}): %r" % (val,))
@@ -149,7 +170,10 @@ def run(ck, F, tier):
                             "shortcut tests/returns the caller's llrs (%s) with hd(x) = %r (non-positive means 1: %s) before any state-changing step (%s)" % (raw, hd_ret, nonpos, bool(first)))
                 else:
                     lp = loops[-1] if loops else None
-                    okc = lp is not None and lp[0] == "range" and its == var(lp[1]) and lp[2] == num(1) and lp[3] == var("max_iterations") and lp[4] is True
+                    counter = its == var(lp[1]) if lp is not None else False
+                    if from_search is not None:
+                        counter = its == app("payload0", from_search["value"])     # the element found by the search is the iteration number
+                    okc = lp is not None and lp[0] == "range" and counter and lp[2] == num(1) and lp[3] == var("max_iterations") and lp[4] is True
                     ck.inst("R2", key + ":count", okc, site, "iterations = %r, loop %r..%s%r (required the induction variable of 1..=max_iterations)" % (
                         its, lp[2] if lp else None, "=" if lp and lp[4] else "", lp[3] if lp else None))
                     ck.inst("R1", key + ":buffer", buf == OUT, site, "success word is taken from %r (decoder output buffer %s)" % (buf, outbuf))
@@ -176,7 +200,8 @@ def run(ck, F, tier):
         nph = 0
         while nph < len(in_loop) and in_loop[nph] in t.phases:
             nph += 1
-        shape_ok = nph >= 1 and in_loop[nph:] == ["check_llrs", "hard_decisions"]
+        # (the success word may be computed inside the loop or once after it)
+        shape_ok = nph >= 1 and in_loop[nph:] in (["check_llrs", "hard_decisions"], ["check_llrs"])
         # the loop may not be left early (break), and an iteration may only be cut short (continue) after its syndrome test failed
         brk = [e for e in t.events if e.callee == "<break>" and e.loops]
         cont_bad = []
@@ -250,6 +275,18 @@ def run(ck, F, tier):
                                 cenv = dict(tc.closure_envs.get(fc[1], {}))
                                 pv = Tracer(F, "NONE", mode="int").apply(("closure", node, cenv), [var("c")])
                                 odd = pv == app("apply", var("hard_decision"), app("index", var("llrs"), var("c")))
+        if not odd and pa and atom_fn(pa) == "std::iter::Iterator::fold" and ppol is False:
+            # parity as a running XOR: !fold(false, |p, c| p ^ hd(llrs[c])) over iter_row(r)
+            IR = app("sparse::SparseMatrix::iter_row", var("h"), var("r"))
+            fa_ = atom_args(pa)
+            src_ok = fa_[0] == IR or (isinstance(fa_[0], tuple) and fa_[0][0] == "iterdesc" and fa_[0][1] in (("elems", ("P", IR)), ("elems", IR)))
+            init_ok = fa_[1] == ("bool", False)
+            fc = fa_[2]
+            node = F.closures.get(fc[1]) if isinstance(fc, tuple) and fc[0] == "closure" else None
+            if src_ok and init_ok and node is not None:
+                pv = Tracer(F, "NONE", mode="int").apply(("closure", node, dict(tc.closure_envs.get(fc[1], {}))), [var("p"), var("c")])
+                HD = app("apply", var("hard_decision"), app("index", var("llrs"), var("c")))
+                odd = pv in (app("bitxor", var("p"), HD), app("bitxor", HD, var("p")))
         ok = rows_ok and odd
         why = "check_llrs = for every r in 0..h.num_rows(): #{c in h.iter_row(r) : hd(llrs[c])} is even  [rows complete: %s, parity of hard decisions over iter_row: %s]" % (
             rows_ok, odd)
